@@ -74,6 +74,10 @@ def check(case):
                           a=a, b=b, M=M)
             if got and not got[0][0].startswith('**'):
                 raise Bad('no-header', f'excerpt {a}..{b} does not start with the header line\n{got_text}')
+            if a == b and (a + M) % 2 == 0:
+                # single measures also through kernpy.dump onto a file that already holds something else
+                if K.via_dump_file(kdoc, expect=got_text, from_measure=a, to_measure=b, **kw) != got_text:
+                    raise Bad('dump-file', f'kernpy.dump(from_measure={a}, to_measure={b}) writes a different text than dumps returns')
             if b == M or (a + b) % 3 == 0:
                 # the same range through a caller-owned ExportOptions object: same text, and the object is not rewritten
                 okw = dict(kw)
